@@ -1,4 +1,4 @@
-package c11
+package c13
 
 import (
 	"os"
@@ -13,9 +13,9 @@ import (
 // TestSlice runs one narrow shard of the quick tier in-process (development
 // aid: profile with go test -cpuprofile).
 func TestSlice(t *testing.T) {
-	s := os.Getenv("C11_SLICE")
+	s := os.Getenv("C13_SLICE")
 	if s == "" {
-		t.Skip("development aid: set C11_SLICE=<n> to run shard 1 of n of the quick tier in-process")
+		t.Skip("development aid: set C13_SLICE=<n> to run shard 1 of n of the quick tier in-process")
 	}
 	n, _ := strconv.Atoi(s)
 	c := core.NewCtx("quick", 1, n, 0, 100*time.Second)
@@ -23,6 +23,9 @@ func TestSlice(t *testing.T) {
 	run(c)
 	r := c.Report()
 	t.Logf("%.1fs counters=%v fails=%d", time.Since(t0).Seconds(), r.Counters, len(r.Fails))
+	for _, n := range r.Notes {
+		t.Log(n)
+	}
 	var sigs []string
 	for s := range r.Fails {
 		sigs = append(sigs, s)
